@@ -1,5 +1,5 @@
 ------------------------------- MODULE GoMisc -------------------------------
-(* C01 part 5.  Three small pieces of the Go specification whose observable is a short sequence of
+(* C01 part 5.  Four small pieces of the Go specification whose observable is a short sequence of
    integers, each with its own case space (MC_GoMisc.tla enumerates them, the driver writes one
    program per case, Trace_GoSem judges the numbers the program prints with MiscRef).
 
@@ -31,7 +31,16 @@
      default type which is the type to which the constant is implicitly converted in contexts where
      a typed value is required" (bool, int); a typed use has exactly its type.  Every use is then
      stored in an interface{} and its dynamic type is looked up by a type switch.
-     Observable: the names of the dynamic types of the uses (B: type B bool; I: type I int). *)
+     Observable: the names of the dynamic types of the uses (B: type B bool; I: type I int).
+
+   maprange ("For statements with range clause", map operand): a range statement over a map literal with exactly ONE
+     entry (so the unspecified iteration order cannot be observed), key type kt and value type vt out of int / string
+     (the entry is 7 / "a" -> 8 / "b"), with the iteration variables form = "k" (for k := range), "kv" (for k, v := range)
+     or "v" (for _, v := range), in a function that has `live` other string variables and `ilive` other int variables
+     that are assigned before the loop and read after it.  The body accumulates the key into ka and the value into va
+     (`ka += k`: ka starts as "k" / 100, va as "v" / 200); the loop runs once.
+     Observable: a string is shown as its length followed by its bytes, an int as itself:
+        <<ka (if the key variable is present), va (if the value variable is present), the live strings "p", "q", the live int 3>>. *)
 EXTENDS Integers, Sequences
 
 MiscDefaultType(kind) == IF kind = "bool" THEN "bool" ELSE "int"
@@ -54,5 +63,14 @@ SelectRef(c) == <<c.ready, IF c.ready > 0 /\ c.dirs[c.ready] = "recv" THEN 50 + 
 
 ConstUseRef(c) == [j \in 1..Len(c.uses) |-> IF c.uses[j] = "any" THEN MiscDefaultType(c.kind) ELSE c.uses[j]]
 
+\* how a value is shown: the string of bytes bs as <<length, bytes...>>
+MiscShowS(bs) == <<Len(bs)>> \o bs
+MapRangeRef(c) ==
+  (IF c.form \in {"k", "kv"} THEN (IF c.kt = "string" THEN MiscShowS(<<107, 97>>) ELSE <<100 + 7>>) ELSE <<>>)
+  \o (IF c.form \in {"kv", "v"} THEN (IF c.vt = "string" THEN MiscShowS(<<118, 98>>) ELSE <<200 + 8>>) ELSE <<>>)
+  \o (IF c.live >= 1 THEN MiscShowS(<<112>>) ELSE <<>>) \o (IF c.live >= 2 THEN MiscShowS(<<113>>) ELSE <<>>)
+  \o (IF c.ilive >= 1 THEN <<3>> ELSE <<>>)
+
 MiscRef(c) == CASE c.fam = "variadic" -> VariadicRef(c) [] c.fam = "select" -> SelectRef(c) [] c.fam = "constuse" -> ConstUseRef(c)
+                [] c.fam = "maprange" -> MapRangeRef(c)
 =============================================================================
